@@ -194,6 +194,24 @@ def gen_case(rng, tier, T_modes=("zero", "pos", "mixed", "named", "empty")):
     elif uni == 'int' and rng.random() < 0.05:
         t = [((0,), dy(rng))] + ([((), dy(rng))] if rng.random() < 0.5 else [])       # one variable, index 0
         labs = [0]
+    big = False
+    if uni == 'int' and rng.random() < 0.04:
+        # more spins than a machine word has bits: a chain with fields on 33..40 variables, several anneals at T > 0
+        n = rng.randint(33, 40)
+        if rng.random() < 0.5:
+            t = [((i, i + 1), dy(rng)) for i in range(n - 1)] + [((i,), dy(rng)) for i in range(n) if rng.random() < 0.6]
+        else:
+            # the last 32 variables are pinned by fields no temperature here can overcome, the leading ones move freely at
+            # the hot schedule below: results that agree on 32 variables and differ in the others
+            # (free ones first, so that dict inputs -- numbered by first appearance -- have them in front as well)
+            t = [((i,), F(rng.choice([-1, 1]), rng.choice([1, 2, 8]))) for i in range(n - 32)] + [((i,), dyw(rng)) for i in range(n - 32, n)]
+            if fn in (2, 3):
+                t = [(k, 2 * v) for k, v in t]
+            big = "hot"
+        if big != "hot":
+            rng.shuffle(t)
+        labs = list(range(n))
+        upd, big = [], (big or True)
     upd = []
     if kind and t and rng.random() < 0.12:
         upd = [(rng.choice(t)[0], F(0))]          # stale variables
@@ -226,11 +244,16 @@ def gen_case(rng, tier, T_modes=("zero", "pos", "mixed", "named", "empty")):
             upd = [u for u in upd if u[0] in [k for k, _ in t]]
             zero_opt = True
     mode = rng.choice(T_modes)
+    if big:
+        zero_opt = False
+        mode = "pos" if "pos" in T_modes else mode
     if zero_opt and "empty" in T_modes and "pos" in T_modes:
         mode = rng.choice(["empty", "pos"])       # no cooling: the results differ from each other
     sched = None
     if mode == "zero":
         Ts = [F(0)] * rng.randint(1, 4)
+    elif mode == "pos" and big == "hot":
+        Ts = [F(rng.choice([24, 32, 40]))] * rng.randint(1, 2)
     elif mode == "pos":
         Ts = [F(rng.randint(1, 40), rng.choice([1, 2, 4, 8])) for _ in range(rng.randint(1, 5))]
     elif mode == "mixed":
@@ -246,14 +269,14 @@ def gen_case(rng, tier, T_modes=("zero", "pos", "mixed", "named", "empty")):
         if sched["schedule"] == "geometric" and sched["range"] == [0.0, 0.0]:
             sched["schedule"] = "linear"          # a geometric sequence cannot include zero; (0, 0) given by the caller is a quench
     init = None
-    if rng.random() < 0.5:
+    if not big and rng.random() < 0.5:
         dom = (1, -1) if spin else (0, 1)
         init = [[C.enc(l), rng.choice(dom)] for l in sorted(set(labs) | {x for k, _ in t for x in k}, key=C.enc)]
         if kind and kind.endswith("Matrix") and labs:
             init = [[i, rng.choice(dom)] for i in range(max(labs) + 1)]
     return {"fn": fn, "kind": kind, "terms": G.jraw(t), "upd": G.jraw(upd),
             "Ts": None if Ts is None else [[x.numerator, x.denominator] for x in Ts], "sched": sched,
-            "num": (rng.choice([3, 4, 6]) if zero_opt else rng.choice([1, 1, 1, 2, 2, 3, 3, 0, -1]) if rng.random() < 0.9 else 4),
+            "num": (rng.choice([3, 4]) if big else rng.choice([3, 4, 6]) if zero_opt else rng.choice([1, 1, 1, 2, 2, 3, 3, 0, -1]) if rng.random() < 0.9 else 4),
             "in_order": rng.random() < 0.5, "init": init, "seed": rng.randint(0, 2 ** 31 - 1),
             # an explicit temperature list is used as it is: anneal_duration (and temperature_range) are documented as ignored then
             "dur": (rng.choice([1, 1, 2, 3]) if (Ts is not None and rng.random() < 0.35) else None),
@@ -278,6 +301,13 @@ def build_model(case):
         m[k] = C.num(v)
     if case.get("remap"):
         from props import c04
+        # every enumerated form once under the numbering the model starts with: nothing remembered from before the user's
+        # numbering may be used after it
+        for meth in ("to_quso", "to_qubo", "to_puso", "to_pubo"):
+            try:
+                getattr(m, meth)()
+            except (KeyError, ValueError, TypeError, AttributeError):
+                pass
         c04.apply_remap(m, case["remap"])       # a numbering chosen by the user
     return m
 
